@@ -974,6 +974,14 @@ class Executor(Engine):
                 for t, x in zip(target.elts, v.items):
                     st = self.assign_target(t, x, st)
                 return st
+            if isinstance(v, VList) and not any(isinstance(e, ast.Starred) for e in target.elts):
+                # unpacking a list: ValueError unless the length matches
+                self.ctx.oblige(f"{self.cur_func}:safety:ValueError:unpack {len(target.elts)} values", "safety", st.pc,
+                                Eq(v.n, Int(len(target.elts))), self.cur_func)
+                st = st.assume(Eq(v.n, Int(len(target.elts))))
+                for k, t in enumerate(target.elts):
+                    st = self.assign_target(t, v.at(Int(k)), st)
+                return st
             raise Unsupported("unpacking shape")
         if isinstance(target, ast.Attribute):
             base = self.ev(target.value, st.env, st)
@@ -1337,6 +1345,13 @@ class Executor(Engine):
                             junk = c.fresh("junk", ty[1])
                             s0 = s0.copy()
                             s0.env[a.arg] = VList(Int(0), lambda i, junk=junk: junk, ty[1])
+                        if ty[0] == "dict" and isinstance(s0.env[a.arg], VDict):
+                            junk = c.fresh("junk", ty[2])
+                            nd = VDict(lambda k_: FALSE, lambda k_, junk=junk: junk, ty[1], ty[2])
+                            nd.empty = True
+                            nd.default = getattr(s0.env[a.arg], "default", None)
+                            s0 = s0.copy()
+                            s0.env[a.arg] = nd
             w = self.where(s)
             c.oblige(f"{w}:loop{key[1]}:invariant holds on entry", "invariant-init", s0.pc,
                      self.invariant(key, s0.env, s0, {"_i": VInt(Int(0)), "_xs": xs}), w)
